@@ -19,10 +19,10 @@ constant-field checks included), to a code reporting exactly those parameters.  
 named in DESIGN §12: protocols outside class A, wrappers the tracer reports opaque, and encoders that refuse.
 -/
 namespace IRModel.Props.Wrapper
-open IRModel IRModel.Py IRModel.Proto IRModel.Wrap IRModel.Props.EngineThm
+open IRModel IRModel.Py IRModel.Proto IRModel.Wrap IRModel.Props.EngineThm IRModel.Engine
 
 /-- **C01 at wrapper level**, from the kernel-checked obligations of one protocol -/
-theorem C01_wrapper (t : Tables) (w : Wrapper) (tol : Match.Tol) (htol : tol.ok) (hw : wfAll t tol = true)
+theorem C01_wrapper (t : Tables) (w : Wrapper) (tol : Match.Tol) (htol : tol.ok) (hw : EngineRT t tol)
     (hok : c01OK t w = true) (u : String → Int) (hu : ∀ n, 0 ≤ u n) (hr : ∀ ep ∈ t.encodeParams, u ep.1 ≤ ep.2.2) :
     ∃ frame c, firstFrame t w u = .ok frame ∧
       (decodeP t w { last := none, tol := tol } frame).result = .ok c ∧
@@ -35,7 +35,7 @@ theorem C01_wrapper (t : Tables) (w : Wrapper) (tol : Match.Tol) (htol : tol.ok)
     values to the `_parameters` fields (every frame obtained from a valid one by substituting data symbols, inside
     checksum, complement or constant fields too), a history-free decoder of the protocol either raises a library error
     or returns a code whose reported parameters re-encode to exactly that frame. -/
-theorem C05_wrapper (t : Tables) (w : Wrapper) (tol : Match.Tol) (htol : tol.ok) (hw : wfAll t tol = true)
+theorem C05_wrapper (t : Tables) (w : Wrapper) (tol : Match.Tol) (htol : tol.ok) (hw : EngineRT t tol)
     (hok : c05OK t w = true) (V : String × Nat × Nat → Nat) (hfit : ∀ prm ∈ t.params, V prm < 2 ^ widthP prm) :
     ∃ frame, Encode.buildPacket t (t.params.map (fun prm => Encode.Item.field (V prm) (widthP prm))) = .ok frame ∧
       (∀ e, (decodeP t w { last := none, tol := tol } frame).result = .error e → e.isLibrary = true) ∧
@@ -61,7 +61,7 @@ theorem C07_wrapper (t : Tables) (w : Wrapper) (hok : c07OK t w = true) (inst : 
     hand-assembled repeat frames alike — is a non-empty list of non-zero durations that starts with a mark, strictly
     alternates, ends with a space and sums to the frame period where there is one; the number of frames grows by the same
     positive amount per repeat; the code carries the protocol's carrier frequency. -/
-theorem C03_wrapper (t : Tables) (w : Wrapper) (tol : Match.Tol) (htol : tol.ok) (hw : wfAll t tol = true)
+theorem C03_wrapper (t : Tables) (w : Wrapper) (tol : Match.Tol) (htol : tol.ok) (hw : EngineRT t tol)
     (hok : c03OK t w = true) (u : String → Int) (hu : ∀ n, 0 ≤ u n) :
     (∀ rc, rc < 3 → ∃ fs, encodeFrames t w u rc = .ok fs ∧ fs.length = frameCount w rc ∧ fs ≠ [] ∧ ∀ f ∈ fs, FrameOK t f) ∧
     (∃ d, 0 < d ∧ frameCount w 1 = frameCount w 0 + d ∧ frameCount w 2 = frameCount w 1 + d) ∧
@@ -89,7 +89,7 @@ theorem C08_wrapper (t : Tables) (w : Wrapper) (hok : c08OK t w = true) (tol : M
     decoder instance started without history, yields on EVERY frame a code reporting exactly the encoded parameters.
     (Composition of `C01_wrapper` — first frame —, `C07_wrapper` — a full frame in any held state —, the invariant of
     `C08_wrapper` — the held code is always a code of the protocol — and `C03_wrapper` — the sequence exists.) -/
-theorem C06_wrapper (t : Tables) (w : Wrapper) (tol : Match.Tol) (htol : tol.ok) (hw : wfAll t tol = true)
+theorem C06_wrapper (t : Tables) (w : Wrapper) (tol : Match.Tol) (htol : tol.ok) (hw : EngineRT t tol)
     (h1 : c01OK t w = true) (h3 : c03OK t w = true) (h6 : c06OK t w = true) (h7 : c07OK t w = true) (h8 : c08OK t w = true)
     (u : String → Int) (hu : ∀ n, 0 ≤ u n) (hr : ∀ ep ∈ t.encodeParams, u ep.1 ≤ ep.2.2) (rc : Nat) (hrc : rc < 3) :
     ∃ fs, encodeFrames t w u rc = .ok fs ∧ fs ≠ [] ∧
